@@ -278,11 +278,15 @@ class Runtime:
                 bj = behs[j]
                 if bj["beh"] == "append":
                     vals.append(list(args[bj["param"]]) + [mix(tag, "app", sorted((k, canon(v)) for k, v in args.items() if k != bj["param"]))])
+                elif bj["beh"] == "half_next":
+                    vals.append((args[bj["param"]] + 1) // 2)  # changes on every second increment only
                 else:
                     vals.append(args[bj["param"]] + 1)
             elif beh == "inc" and j == 0:
                 p = spec["beh_param"]
                 vals.append(args[p] + 1)
+            elif beh == "half" and j == 0:
+                vals.append(args[spec["beh_param"]] // 2)  # changes on every second change of its argument only
             elif beh == "pass" and j == 0:
                 vals.append(args[spec["beh_param"]])
             elif beh == "append" and j == 0:
@@ -532,6 +536,9 @@ def interrupt_response(spec: dict, args: dict) -> Any:
         k = kinds[j] if j < len(kinds) else None
         if k == "ambiguous":
             return Ambiguous(mix(tag, "resp", j, basis))
+        if k == "dict_own_key":
+            # the answer is itself a dict, keyed by the interrupt's own output name: {"decision": ...} as the VALUE of decision
+            return {outs[j]: mix(tag, "resp", j, basis)}
         if k in _FALSY:
             v = _FALSY[k]
             return list(v) if isinstance(v, list) else v
